@@ -16,7 +16,7 @@ std::ostream& write(std::ostream& stream, const tensor_t<tstorage, tscalar, tran
         !::nano::write(stream, static_cast<uint32_t>(trank)) ||               // rank
         !::nano::write_cast<int32_t>(stream, tensor.dims().data(), trank) ||  // dimensions
         !::nano::write(stream, static_cast<uint32_t>(sizeof(tscalar))) ||     // sizeof(scalar)
-        !::nano::write(stream, detail::hash(tensor.data(), tensor.size())) || // hash(content)
+        !::nano::write(stream, detail::checksum(tensor.data(), tensor.size())) || // hash(content)
         !::nano::write(stream, tensor.data(), tensor.size()))                 // content
     {
         stream.setstate(std::ios_base::failbit);
@@ -41,7 +41,7 @@ std::istream& read(std::istream& stream, tensor_t<tstorage, tscalar, trank>& ten
         !::nano::read_cast<int32_t>(stream, dims.data(), trank) || // dimensions
         !::nano::read(stream, iscalar) ||                          // sizeof(scalar)
         !::nano::read(stream, ihash) ||                            // hash(content)
-        iversion != detail::hash_version() || static_cast<size_t>(irank) != trank ||
+        iversion > detail::hash_version() || static_cast<size_t>(irank) != trank ||
         static_cast<size_t>(iscalar) != sizeof(tscalar))
     {
         stream.setstate(std::ios_base::failbit);
@@ -51,8 +51,10 @@ std::istream& read(std::istream& stream, tensor_t<tstorage, tscalar, trank>& ten
     // NB: allocate a new tensor, so that the given one stays valid if the dimensions are corrupted and the allocation fails!
     tensor_t<tstorage, tscalar, trank> content;
     content.resize(dims);
+    // NB: streams written with the previous version of the format carry the weaker hash.
     if (!::nano::read(stream, content.data(), content.size()) || // content
-        ihash != detail::hash(content.data(), content.size()))
+        ihash != (iversion == 0U ? detail::hash(content.data(), content.size())
+                                 : detail::checksum(content.data(), content.size())))
     {
         stream.setstate(std::ios_base::failbit);
     }
